@@ -23,12 +23,6 @@ Section IR.
   Local Notation Q := (Q S OPS ATTRS OBJS F).
   Local Notation RT_concl := (RT_concl S OPS ATTRS OBJS F).
 
-  Lemma pos_field_facts' fd : pos_field fd = true -> (f_tag fd =? 0) = false /\ f_setver fd = false /\ f_range fd = None.
-  Proof.
-    unfold pos_field. rewrite !andb_true_iff. intros ((H1 & H2) & H3). apply negb_true_iff in H1, H2.
-    destruct (f_range fd); [discriminate|]. auto.
-  Qed.
-
   (** the reflective encoder at a field with a real tag and no version wrapper *)
   Lemma enc_field_pos g st fd x fl vl : pos_field fd = true ->
     enc_fields (Datatypes.S g) st (fd :: fl) (x :: vl) =
@@ -36,7 +30,7 @@ Section IR.
     do b <- enc_fields g (snd a) fl vl ;;
     Ok ((fst a ++ fst b)%list, snd b).
   Proof.
-    intros Hp. destruct (pos_field_facts' fd Hp) as (Ht0 & Hsv & Hr).
+    intros Hp. destruct (pos_field_facts fd Hp) as (Ht0 & Hsv & Hr).
     rewrite enc_fields_eq. cbv zeta. rewrite Ht0, Hsv, Hr, version_in_none. reflexivity.
   Qed.
 
